@@ -179,20 +179,23 @@ def check_formula(run, bp, g, cards):
             "LEAVES": (M.MEASURE_LEAVES, leaves), "DEPTH": (M.MEASURE_DEPTH, depth),
             "BOOL_DAG": (M.MEASURE_BOOL_DAG, bool_dag(b)),
         }
-        order = list(sizes.items())
-        if g.pct(50):
-            order.reverse()
-        for name, (m, exp) in order:
-            v = f.size(m)
-            if v != exp:
-                fail("size-" + name, "size(%s) = %r expected %r" % (name, v, exp))
-        if f.size() != tree:
-            fail("size-default", "size() = %r expected TREE_NODES %r" % (f.size(), tree))
         nsym_leaves = len({s for s in subterms(b) if s[0] == "SYMBOL"})
         nsym_all = len(all_symbols(b))
-        v = f.size(M.MEASURE_SYMBOLS)
-        if not (nsym_leaves <= v <= max(nsym_all, nsym_leaves)):
-            fail("size-SYMBOLS", "size(SYMBOLS) = %r outside [%d, %d]" % (v, nsym_leaves, nsym_all))
+        sizes["SYMBOLS"] = (M.MEASURE_SYMBOLS, None)
+        # every measure, in two different random orders (what one measure memoises must not leak into another)
+        order = list(sizes.items())
+        for _pass in range(2):
+            g.rnd.shuffle(order)
+            for name, (m, exp) in order:
+                v = f.size(m)
+                if name == "SYMBOLS":
+                    if not (nsym_leaves <= v <= max(nsym_all, nsym_leaves)):
+                        fail("size-SYMBOLS", "size(SYMBOLS) = %r outside [%d, %d]" % (v, nsym_leaves, nsym_all))
+                elif v != exp:
+                    fail("size-" + name, "size(%s) = %r expected %r (order of the queries: %s)" % (
+                        name, v, exp, [n_ for n_, _ in order]))
+        if f.size() != tree:
+            fail("size-default", "size() = %r expected TREE_NODES %r" % (f.size(), tree))
         # -- sorts
         lower, upper = ref_type_bounds(b)
         rep = {pys.from_ptype(t) for t in env.typeso.get_types(f)}
